@@ -77,6 +77,7 @@ def specs(
         nsamp_pool = draw(st.integers(1, max(1, max_samples)))
         spool = list(draw(st.permutations(SAMPLE_POOL))[:nsamp_pool])
     sf_width = {}
+    orient = {}  # wellposed: one orientation per systematic (all bins / samples move the same way)
     channels = []
     has_lumi = False
     used_poi = False
@@ -128,7 +129,9 @@ def specs(
                         if wellposed:
                             lo = draw(nice_float(0.7, 0.98))
                             hi = draw(nice_float(1.02, 1.3))
-                            if draw(st.integers(0, 9)) == 0:
+                            if ns not in orient:
+                                orient[ns] = draw(st.integers(0, 9)) != 0
+                            if not orient[ns]:
                                 lo, hi = hi, lo
                         else:
                             lo = draw(nice_float(0.5, 1.5))
@@ -138,13 +141,23 @@ def specs(
                 for hs in HISTOSYS:
                     if p(0.3):
                         lo_d, hi_d = [], []
+                        if wellposed and hs not in orient:
+                            orient[hs] = draw(st.integers(0, 9)) != 0
                         for v in data:
                             if free_histosys:
                                 lo_d.append(draw(nice_float(-50.0, 350.0)))
                                 hi_d.append(draw(nice_float(-50.0, 350.0)))
                             else:
-                                r1 = draw(nice_float(-histosys_rel, histosys_rel))
-                                r2 = draw(nice_float(-histosys_rel, histosys_rel))
+                                if wellposed:
+                                    # opposite-side variations: a same-side pair makes the likelihood
+                                    # non-monotonic in alpha and the fit multi-modal
+                                    r1 = -draw(nice_float(0.02, histosys_rel))
+                                    r2 = draw(nice_float(0.02, histosys_rel))
+                                    if not orient[hs]:
+                                        r1, r2 = r2, r1
+                                else:
+                                    r1 = draw(nice_float(-histosys_rel, histosys_rel))
+                                    r2 = draw(nice_float(-histosys_rel, histosys_rel))
                                 # zero-yield bins stay structurally zero (no rounding-sensitive rates)
                                 lo_d.append(float(f"{v + r1 * v:.6g}"))
                                 hi_d.append(float(f"{v + r2 * v:.6g}"))
